@@ -58,7 +58,7 @@ def load():
 
 class Obs:
     """Observation of one execution."""
-    __slots__ = ('exc', 'exc_msg', 'warns', 'other_warns', 'after', 'phase', 'cls')
+    __slots__ = ('exc', 'exc_msg', 'warns', 'other_warns', 'after', 'phase', 'cls', 'before', 'merge_error', 'completed_error')
 
     def __init__(self):
         self.exc = None          # exception class name or None
@@ -68,6 +68,9 @@ class Obs:
         self.after = None        # str(ro) after the step (also after an exception)
         self.phase = None        # 'parse-ro' | 'parse-msg' | 'merge' - where the exception arose
         self.cls = None          # class name of the parsed message
+        self.before = None       # str(ro) right after parsing (the library's own serialisation of the source state)
+        self.merge_error = False       # the exception is a MosMergeError (by isinstance, not by name)
+        self.completed_error = False   # ... a MosCompletedMergeError
 
     def as_dict(self):
         return {k: getattr(self, k) for k in self.__slots__}
@@ -82,11 +85,32 @@ def is_lib_exc(ns, e):
     return isinstance(e, ns.exc.MosRoMgrException)
 
 
+def warning_name(ns, category):
+    """Documented category a warning belongs to (a subclass counts as its documented base)."""
+    for base in ('StoryNotFoundWarning', 'ItemNotFoundWarning', 'DuplicateStoryWarning', 'MosMergeNonStrictWarning'):
+        b = getattr(ns.exc, base, None)
+        if b is not None and issubclass(category, b):
+            return base
+    return category.__name__
+
+
+def exc_name(ns, e):
+    """Name under which an exception is reported: the documented library class it is an instance of
+    (most specific first), 'BUILTIN:<name>' for anything that is not a MosRoMgrException."""
+    if not isinstance(e, ns.exc.MosRoMgrException):
+        return 'BUILTIN:' + type(e).__name__
+    for base in ('MosCompletedMergeError', 'MosMergeError', 'UnknownMosFileType', 'MosInvalidXML', 'InvalidMosCollection'):
+        b = getattr(ns.exc, base, None)
+        if b is not None and isinstance(e, b):
+            return base
+    return type(e).__name__
+
+
 def split_warnings(ns, wlist):
     mine, other = [], []
     for w in wlist:
         if issubclass(w.category, ns.exc.MosRoMgrWarning):
-            mine.append(w.category.__name__)
+            mine.append(warning_name(ns, w.category))
         else:
             other.append(w.category.__name__)
     return tuple(mine), tuple(other)
@@ -140,13 +164,17 @@ def step(ns, ro_text, msg_text, wfilter='always', touch_before=False):
     o = Obs()
     ro, e = parse(ns, ro_text, wfilter)
     if e is not None:
-        o.exc, o.exc_msg, o.phase = type(e).__name__, str(e), 'parse-ro'
+        o.exc, o.exc_msg, o.phase = exc_name(ns, e), str(e), 'parse-ro'
         return o, None, None
+    try:
+        o.before = str(ro)
+    except Exception:  # noqa
+        o.before = None
     if touch_before:
         touch(ro)
     msg, e = parse(ns, msg_text, wfilter)
     if e is not None:
-        o.exc, o.exc_msg, o.phase = type(e).__name__, str(e), 'parse-msg'
+        o.exc, o.exc_msg, o.phase = exc_name(ns, e), str(e), 'parse-msg'
         o.after = str(ro)
         return o, ro, None
     return step_live(ns, ro, msg, wfilter, o), ro, msg
@@ -157,6 +185,11 @@ def step_live(ns, ro, msg, wfilter='always', o=None):
     running order (the same object after an exception)."""
     if o is None:
         o = Obs()
+    if o.before is None:
+        try:
+            o.before = str(ro)
+        except Exception:  # noqa
+            pass
     o.cls = type(msg).__name__
     res = ro
     with warnings.catch_warnings(record=True) as w:
@@ -164,9 +197,9 @@ def step_live(ns, ro, msg, wfilter='always', o=None):
         try:
             res = ro + msg
         except Exception as e:  # noqa
-            o.exc, o.exc_msg, o.phase = type(e).__name__, str(e), 'merge'
-            if not isinstance(e, ns.exc.MosRoMgrException):
-                o.exc = 'BUILTIN:' + o.exc
+            o.exc, o.exc_msg, o.phase = exc_name(ns, e), str(e), 'merge'
+            o.merge_error = isinstance(e, ns.exc.MosMergeError)
+            o.completed_error = isinstance(e, ns.exc.MosCompletedMergeError)
     o.warns, o.other_warns = split_warnings(ns, w)
     try:
         o.after = str(res)
